@@ -178,6 +178,11 @@ class OpsArrayNS:
     def is_numeric_array(x):
         return isinstance(x, SArr)
 
+    @staticmethod
+    def astype(x, dtype):
+        # values unchanged (False/True -> 0/1); only the element type, which decides how numpy reads an index array
+        return SArr(x.shape, x.get, "int" if str(dtype).startswith(("int", "uint")) else str(dtype))
+
 
 def in_range(idx, shape):
     return And(*[And(0 <= i, i < s) for i, s in zip(idx, shape)])
@@ -341,6 +346,9 @@ def _advanced_index(x, index):
     cooked = []
     for pos, i in enumerate(index):
         if isinstance(i, SArr):
+            if i.dtype == "bool":
+                # numpy reads a boolean array as a MASK (selects positions where it is True): not integer indexing
+                raise Declined("IndexError", "boolean array used as an index acts as a mask")
             cooked.append(i)
         elif isinstance(i, (int, SV)) and not isinstance(i, bool) and pos < len(x.shape):
             if not truth(And(0 <= i, i < x.shape[pos])):
